@@ -168,7 +168,10 @@ class C11(Prop):
           'sorted x position of the conditional candidates, thorough: all). '
           'Per spec: full enumeration when the size bound is <= 2000, members (first/last/random), '
           '8-24 one-step corruptions of members (index +-1, -1, n, swap, duplicate, drop/add child, type '
-          'change, stray value), scripted and seeded random_dna, DNA comparisons. Non-trivial: the spec '
+          'change, stray value), scripted and seeded random_dna (also with previous_dna), DNA comparisons; '
+          'plus specs whose custom decision points carry list-enumerating user hooks (root, space element first / '
+          'middle / last, inside conditional candidates of single and multi-choices): first_dna, next_dna with '
+          'attach_spec True and False, iter_dna, next_dna on members and on DNAs the hook rejects. Non-trivial: the spec '
           'has at least 2 DNAs or is non-finite; distinct: by case JSON.')
   trusted_base = [
       'translator translate/t_c11.py: shape tables of _space_size, next_value_for_choice, min_remaining_choices and '
@@ -178,8 +181,9 @@ class C11(Prop):
       'random.Random is replaced by a scripted oracle for the model comparison; seeded random.Random runs '
       'are checked by the oracle only',
       'modelled, not verified: validate / use_spec / space_size / first_dna / next_dna / random_dna / __cmp__ '
-      '(hand-written Lean mirror tied by correspondence); custom decision points\' user callbacks and hints '
-      'are outside the model; next_dna is compared on members AND on the one-step corruptions (tree / None / raises, '
+      '(hand-written Lean mirror tied by correspondence); custom decision points\' next_dna_fn hooks are PARAMETERS of the '
+      'model (PgModel/Geno/Hooks.lean, contract HookContract; the harness installs list-enumerating hooks), their '
+      'random_dna_fn and hints are outside the model; next_dna is compared on members AND on the one-step corruptions (tree / None / raises, '
       'after the binding that next_dna applies to its result)',
       'every clause of the property is a Lean theorem about the model (PgProps/C11.lean); the driver-internal '
       'checks iter == allValid and size == |allValid| on every enumerated spec are now redundant sanity checks',
